@@ -13,7 +13,7 @@ EXPLANATION = (
     'test depends on the poll result being Pending (Suspended), on the woken flag and on Arc::strong_count of the per-poll waker, read '
     'after the executor\'s own Waker copy was dropped; R07.d every hand-written poll function of crux_core and crux_time that returns Pending has '
     'kept a clone of the waker of the current poll (the premise under which "no clone survives" means "cannot be woken"). R07.b also requires that every '
-    'task leaving the slab — finished, aborted or evicted — publishes `finished` and wakes its join handles (after the removal, or on every terminal path of run_task). NOT decided: exactness of the waker-count heuristic — whether "no surviving '
+    'task leaving the slab — finished, aborted or evicted — publishes `finished` and wakes its join handles (after the removal, or on every terminal path of run_task). R07.g both executor loops re-read the spawn and ready queues after any task has run, on every path out, so a task spawned in the last poll of an evicted task is in the slab before is_done looks (shared with C01 R01.e). NOT decided: exactness of the waker-count heuristic — whether "no surviving '
     'waker clone" coincides with "can never be woken" for every mix of joins, selects, channels and self-waking futures depends on '
     'what arbitrary user futures do with wakers at run time.')
 
@@ -188,6 +188,11 @@ def check(ctx, rep):
     from rules.props import c05 as _c05
     rep.rule('R07.f', 'every way of waking a task waker enqueues the task, marks it woken and wakes the parent, on every path', floor=5)
     _c05.check_wake_impls(rep, 'R07.f', core, None)
+    # R07.g: "no task remains" is only meaningful when every spawned task has entered the slab: a task still sitting in the spawn queue is
+    # counted by nobody.  Both executor loops pick the spawn queue up again after any task has run, on every path out (an evicted task
+    # may have spawned in its last poll), before is_done looks at the slab (shared with C01 R01.e)
+    rep.rule('R07.g', 'both executor loops read both queues and return only after finding them empty again once any task has run', floor=5)
+    c01.check_executor_loops(rep, core, rid='R07.g')
     # R07.d: the premise of the eviction test for the futures crux itself provides
     from rules.props import c05
     rep.rule('R07.d', 'every future provided by crux that stays Pending holds a clone of the current poll\'s waker (or is deliberately unwakeable): '
